@@ -13,6 +13,17 @@ INSTANCE RegistryData
 
 Log == ndJsonDeserialize(IOEnv.TRACE)
 
+StdNames(pairs, code) == LET hits == {i \in 1..Len(pairs) : pairs[i][1] = code} IN
+                         IF hits = {} THEN {} ELSE pairs[CHOOSE i \in hits : TRUE][2]
+
+\* vendor extension ranges (DWARF5 7.7.1 DW_OP_lo_user 0xe0..0xff, 7.24 DW_CFA_lo_user 0x1c..0x3f, 7.5.6 DW_FORM vendor forms from
+\* 0x1f00): several vendors name the same code differently there, the registry (LLVM's names) is not authoritative
+VendorRange(family, d) ==
+  CASE family = "DW_OP_BASE" -> Len(d) > 1 \/ d[1] >= 224
+    [] family = "DW_CFA_BASE" -> Len(d) > 1 \/ (d[1] >= 28 /\ d[1] <= 63)
+    [] family = "DW_FORM_BASE" -> Len(d) > 1
+    [] OTHER -> TRUE
+
 VARIABLES l, bad, checked, unknown
 vars == <<l, bad, checked, unknown>>
 
@@ -23,7 +34,13 @@ Step ==
   /\ l' = l + 1
   /\ LET e == Log[l] IN
      IF e.name \in RegAmbiguous \/ e.name \notin DOMAIN Reg
-     THEN unknown' = unknown + 1 /\ UNCHANGED <<bad, checked>>
+     THEN \* a name the registry does not define.  In the decoding direction (code -> name) that is still wrong when the
+          \* registry HAS a name for this code in the table's family: a code found in a file must be reported under one
+          \* of its standard names.
+          IF e.kind = "rev" /\ e.family \in DOMAIN RegByCode /\ ~VendorRange(e.family, e.value) /\ StdNames(RegByCode[e.family], e.value) # {}
+          THEN /\ checked' = checked + 1 /\ UNCHANGED unknown
+               /\ bad' = bad \cup {<<e.table, e.name, e.value, e.value, "rev_nonstandard_name">>}
+          ELSE unknown' = unknown + 1 /\ UNCHANGED <<bad, checked>>
      ELSE /\ checked' = checked + 1
           /\ UNCHANGED unknown
           /\ IF Reg[e.name] = e.value THEN UNCHANGED bad
